@@ -504,6 +504,25 @@ def validation(ctx):
   ctx.ob('ESC/power-of-2', p2, r[0], ok, 'x is non-zero and x & (x - 1) is zero' if ok else
          'power-of-two test %s does not require both x != 0 and x & (x - 1) == 0' % norm_text(v), construct='power-of-two test',
          definite=bool(trick) and zero_tested and not nonzero_x)      # the idiom is located and tested for zero, but nothing excludes x == 0
+  # location-independent: inside a loop over the tempos / time signatures, the rejection of a change must not be exempted by
+  # the event's *time*: two different tempos (or meters) stamped with the same time, e.g. both at 0, are a change as well
+  for lp in ast.walk(fn):
+    if not (isinstance(lp, ast.For) and isinstance(lp.target, ast.Name)):
+      continue
+    v = lp.target.id
+    src = norm_text(U.expand_locals(fn, lp.iter, at=lp))
+    fld = next((f for f in ('tempos', 'time_signatures') if ('.' + f) in src), None)
+    if fld is None:
+      continue
+    for r_ in U.walk_stmts(lp):
+      if not (isinstance(r_, ast.Raise) and r_.exc is not None and (dotted(r_.exc.func) if isinstance(r_.exc, ast.Call) else dotted(r_.exc) or '').startswith('Multiple')):
+        continue
+      conds = U.path_conditions(fn, r_, stop_at=lp)
+      timed = [(t, p) for t, p in conds if ('%s.time' % v) in norm_text(t)]
+      ctx.ob('ESC/change-not-exempted-by-time', fi, r_, not timed, 'every %s entry after the first is compared, whatever its time' % fld if not timed else
+             'the rejection of a changed %s value is reached only if %s: entries excluded by that condition are never compared, so two different values stamped with the same '
+             'time (e.g. both at 0) are accepted and one of them silently wins' % (fld[:-1], ' and '.join(('' if p else 'not ') + '(' + norm_text(t) + ')' for t, p in timed)),
+             construct='change detection over %s ignores the time stamp' % fld, definite=True)
   # change detection: every later event compared on the value fields with !=, against the first in time order
   for field, attrs in (('time_signatures', {'numerator', 'denominator'}), ('tempos', {'qpm'})):
     loop = None
